@@ -190,6 +190,9 @@ def main():
     for k, pl in enumerate(plans):
         pl["_idx"] = k
     deadline = t0 + (args.deadline if args.deadline else (600 if tier == "quick" else 3 * 3600))
+    if "VERIF_RUN_WATCHDOG" not in os.environ:
+        fanout.RUN_WATCHDOG_S = 240 if tier == "quick" else 1800
+        os.environ["VERIF_RUN_WATCHDOG"] = str(fanout.RUN_WATCHDOG_S)  # inherited by the forked workers
     pool = fanout.Pool(args.workers)
     evaluations = 0
     runs = 0
